@@ -74,6 +74,7 @@ type OpSpec struct {
 	Tx      *TxSpec    `json:"tx,omitempty"`
 	Snap    *SnapSpec  `json:"snap,omitempty"`
 	Genesis []GenEntry `json:"genesis,omitempty"`
+	TS      uint64     `json:"ts,omitempty"` // validation time of a "validated" op
 }
 
 type GenEntry struct {
@@ -181,8 +182,25 @@ func (s *SnapSpec) Build() (*common.SnapshotWithTopologicalOrder, []crypto.Hash)
 
 // ---- Coq terms ----------------------------------------------------------------
 
-func hN(h crypto.Hash) string { return vh.BytesAsN(h[:]) }
-func kN(k crypto.Key) string  { return vh.BytesAsN(k[:]) }
+// Hash-valued fields the model only tests for equality (transaction, snapshot
+// and node ids, ghost keys) are sent as their 8-byte prefix: Coq spends its time
+// interpreting long numerals.  The prefix map is checked to be injective.
+// Asset ids, chains and node signer/payee keys (compared with constants or
+// computed from bytes inside the model) are sent in full.
+var prefixOf = map[uint64][32]byte{}
+
+func short(b [32]byte) string {
+	p := binary.BigEndian.Uint64(b[:8])
+	if old, ok := prefixOf[p]; ok && old != b {
+		panic("8-byte prefix collision")
+	}
+	prefixOf[p] = b
+	return vh.NU(p)
+}
+
+func hN(h crypto.Hash) string    { return short(h) }
+func kN(k crypto.Key) string     { return short(k) }
+func hFull(h crypto.Hash) string { return vh.BytesAsN(h[:]) }
 
 func strN(s string) string { return vh.BytesAsN([]byte(s)) }
 
@@ -193,7 +211,7 @@ func CoqTx(ver *common.VersionedTransaction) string {
 		case in.Mint != nil:
 			ins = append(ins, vh.App("IMint", vh.Z(Big(in.Mint.Amount))))
 		case in.Deposit != nil:
-			ins = append(ins, vh.App("IDeposit", hN(in.Deposit.Chain), strN(in.Deposit.AssetKey), vh.Z(Big(in.Deposit.Amount))))
+			ins = append(ins, vh.App("IDeposit", hFull(in.Deposit.Chain), strN(in.Deposit.AssetKey), vh.Z(Big(in.Deposit.Amount))))
 		case in.Genesis != nil:
 			ins = append(ins, "IGenesis")
 		default:
@@ -218,7 +236,7 @@ func CoqTx(ver *common.VersionedTransaction) string {
 		id := append(append([]byte{}, cur.Custodian.PublicSpendKey[:]...), cur.Custodian.PublicViewKey[:]...)
 		cust = vh.Some("(" + vh.BytesAsN(id) + ", " + vh.NU(uint64(len(cur.Nodes))) + ")")
 	}
-	return vh.App("Build_tx", hN(ver.PayloadHash()), hN(ver.Asset), vh.List(ins, "input"), vh.List(outs, "output"),
+	return vh.App("Build_tx", hN(ver.PayloadHash()), hFull(ver.Asset), vh.List(ins, "input"), vh.List(outs, "output"),
 		vh.Bytes(ver.Extra), vh.List(refs, "N"), cust)
 }
 
@@ -235,7 +253,7 @@ func CoqSnap(s *common.SnapshotWithTopologicalOrder) string {
 		refs, vh.List(txs, "N"), vh.NU(s.TopologicalOrder))
 }
 
-func hashList(hs []crypto.Hash) string {
+func HashList(hs []crypto.Hash) string {
 	var l []string
 	for _, h := range hs {
 		l = append(l, hN(h))
@@ -351,7 +369,7 @@ func decode(kv storage.VerifKV) Entry {
 		for _, kk := range u.Keys {
 			ks = append(ks, kN(*kk))
 		}
-		e.Coq = vh.App("EUtxo", hN(u.Hash), vh.NU(uint64(u.Index)), hN(u.Asset), vh.ZI(int64(u.Type)), vh.Z(Big(u.Amount)),
+		e.Coq = vh.App("EUtxo", hN(u.Hash), vh.NU(uint64(u.Index)), hFull(u.Asset), vh.ZI(int64(u.Type)), vh.Z(Big(u.Amount)),
 			vh.List(ks, "N"), hN(u.LockHash))
 	case "GHOST":
 		if len(k) != 32 || len(v) != 32 {
@@ -363,7 +381,7 @@ func decode(kv storage.VerifKV) Entry {
 		if len(k) != 32 || json.Unmarshal(v, &a) != nil {
 			return bad()
 		}
-		e.Coq = vh.App("EInfo", hN(h32(k)), hN(a.Chain), strN(a.AssetKey))
+		e.Coq = vh.App("EInfo", hFull(h32(k)), hFull(a.Chain), strN(a.AssetKey))
 	case "ASSETTOTAL":
 		if len(k) != 32 {
 			return bad()
@@ -372,7 +390,7 @@ func decode(kv storage.VerifKV) Entry {
 		if p, _ := vh.Catch(func() { amt = common.NewIntegerFromString(string(v)) }); p {
 			return bad()
 		}
-		e.Coq = vh.App("ETotal", hN(h32(k)), vh.Z(Big(amt)))
+		e.Coq = vh.App("ETotal", hFull(h32(k)), vh.Z(Big(amt)))
 	case "UNIQUE":
 		if len(k) != 64 {
 			return bad()
@@ -419,7 +437,7 @@ func decode(kv storage.VerifKV) Entry {
 		if !ok {
 			return bad()
 		}
-		e.Coq = vh.App("ENode", vh.NU(binary.BigEndian.Uint64(k[:8])), hN(h32(k[8:])), hN(h32(v[:32])), hN(h32(v[32:64])), vh.ZI(st))
+		e.Coq = vh.App("ENode", vh.NU(binary.BigEndian.Uint64(k[:8])), hFull(h32(k[8:])), hFull(h32(v[:32])), hN(h32(v[32:64])), vh.ZI(st))
 	case "CUSTODIANUPDATE":
 		if len(k) != 8 || len(v) != 32 {
 			return bad()
@@ -571,7 +589,11 @@ func (s *Store) Exec(op OpSpec) (class string, coqOp string) {
 		}
 		var err error
 		pan, _ := vh.Catch(func() { err = s.S.LockUTXOs(ins, ver.PayloadHash(), false) })
-		return classify(pan, err), vh.App("OpLock", CoqTx(ver))
+		var ks []string
+		for _, in := range ins {
+			ks = append(ks, "("+hN(in.Hash)+", "+vh.NU(uint64(in.Index))+")")
+		}
+		return classify(pan, err), vh.App("OpLock", vh.List(ks, "(N*N)"), hN(ver.PayloadHash()))
 	case "write":
 		ver := op.Tx.Build()
 		for _, in := range ver.Inputs {
@@ -593,7 +615,7 @@ func (s *Store) Exec(op OpSpec) (class string, coqOp string) {
 		snap, signers := op.Snap.Build()
 		var err error
 		pan, _ := vh.Catch(func() { err = s.S.WriteSnapshot(snap, signers) })
-		return classify(pan, err), vh.App("OpSnapshot", CoqSnap(snap), hashList(signers))
+		return classify(pan, err), vh.App("OpSnapshot", CoqSnap(snap), HashList(signers))
 	case "genesis":
 		var snaps []*common.SnapshotWithTopologicalOrder
 		var txs []*common.VersionedTransaction
@@ -608,10 +630,71 @@ func (s *Store) Exec(op OpSpec) (class string, coqOp string) {
 		}
 		var err error
 		pan, _ := vh.Catch(func() { err = s.S.LoadGenesis(rounds, snaps, txs) })
-		xin := "(" + hN(common.XINAsset.Chain) + ", " + strN(common.XINAsset.AssetKey) + ")"
+		xin := "(" + hFull(common.XINAsset.Chain) + ", " + strN(common.XINAsset.AssetKey) + ")"
 		return classify(pan, err), vh.App("OpGenesis", xin, vh.List(terms, "(snapshot * tx)"))
 	}
 	panic("op kind " + op.Kind)
+}
+
+// Account is a seeded address (spend and view keys known to the harness).
+func Account(seedHex string) *common.Address {
+	seed, err := hex.DecodeString(seedHex)
+	if err != nil || len(seed) != 64 {
+		panic("bad seed")
+	}
+	a := common.NewAddressFromSeed(seed)
+	return &a
+}
+
+// ExecValidated is the node's own admission path for one transaction: sign
+// every input with the accounts of op.Tx.Sign, common Validate against the real
+// store, LockInputs, WriteTransaction.  Returns "rejected" when Validate (or the
+// input lock) refuses the transaction; the model hops otherwise.
+func (s *Store) ExecValidated(op OpSpec) (class string, hops []string) {
+	ver := op.Tx.Build()
+	var accounts []*common.Address
+	for _, sd := range op.Tx.Sign {
+		accounts = append(accounts, Account(sd))
+	}
+	for i := range ver.Inputs {
+		if err := ver.SignInput(s.S, i, accounts); err != nil {
+			return "rejected", nil
+		}
+	}
+	var err error
+	pan, pv := vh.Catch(func() { err = ver.Validate(s.S, op.TS, false) })
+	if pan {
+		panic(fmt.Sprint("Validate panicked: ", pv))
+	}
+	if err != nil {
+		if os.Getenv("FIN_DEBUG") != "" {
+			fmt.Println("rejected:", err)
+		}
+		return "rejected", nil
+	}
+	h := ver.PayloadHash()
+	var ks []string
+	for _, o := range ver.Outputs {
+		for _, k := range o.Keys {
+			ks = append(ks, kN(*k))
+		}
+	}
+	hops = append(hops, vh.App("HOp", vh.App("OpGhost", vh.List(ks, "N"), hN(h)), CoqRes("ok")))
+	err = ver.LockInputs(s.S, false)
+	var ins []string
+	for _, in := range ver.Inputs {
+		ins = append(ins, "("+hN(in.Hash)+", "+vh.NU(uint64(in.Index))+")")
+	}
+	hops = append(hops, vh.App("HOp", vh.App("OpLock", vh.List(ins, "(N*N)"), hN(h)), CoqRes(classify(false, err))))
+	if err != nil {
+		return "rejected", hops
+	}
+	pan, pv = vh.Catch(func() { err = s.S.WriteTransaction(ver) })
+	if pan {
+		panic(fmt.Sprint("WriteTransaction panicked: ", pv))
+	}
+	hops = append(hops, vh.App("HOp", vh.App("OpWriteTx", CoqTx(ver)), CoqRes(classify(false, err))))
+	return classify(false, err), hops
 }
 
 // SortedKeys returns map keys sorted (deterministic iteration).
